@@ -153,7 +153,7 @@ def inline_condition_temps(tree: ast.AST) -> int:
                     j = i + 1
                     while j < len(b) and _is_log_stmt(b[j]):
                         j += 1
-                    if j >= len(b) or not isinstance(b[j], (ast.If, ast.While)):
+                    if j >= len(b) or not isinstance(b[j], (ast.If, ast.While, ast.Assert)):
                         continue
                     use = loads[nm][0]
                     if not any(y is use for y in ast.walk(b[j].test)):
